@@ -44,6 +44,9 @@ impl Subject for CtorSubj {
     fn apply(&mut self, op: &[i128]) -> Ints {
         let u = |i: usize| op[i] as usize;
         let f = |i: usize| f64::from_bits(op[i] as u64);
+        if op[0] == 141 {
+            return builder_script(op);
+        }
         match op[1] {
             1 => match caches::RawLRU::<TKey, TVal>::new(u(2)) {
                 Ok(c) => vec![0, c.cap() as i128],
@@ -83,11 +86,147 @@ impl Subject for CtorSubj {
                 Ok(_) => vec![0],
                 Err(e) => lfu_err(&e, f(4)),
             },
+            9 => match caches::TwoQueueCache::<TKey, TVal>::new(u(2)) {
+                Ok(c) => twoq_out(&c),
+                Err(e) => cache_err(e),
+            },
+            10 => match caches::TwoQueueCache::<TKey, TVal>::with_recent_ratio(u(2), f(3)) {
+                Ok(c) => twoq_out(&c),
+                Err(e) => cache_err(e),
+            },
+            11 => match caches::TwoQueueCache::<TKey, TVal>::with_ghost_ratio(u(2), f(3)) {
+                Ok(c) => twoq_out(&c),
+                Err(e) => cache_err(e),
+            },
+            12 => match caches::RawLRU::<TKey, TVal, caches::DefaultEvictCallback, VHasher>::with_hasher(u(2), VHasher::from_mode(2)) {
+                Ok(c) => vec![0, c.cap() as i128],
+                Err(e) => cache_err(e),
+            },
+            13 => match caches::RawLRU::<TKey, TVal, RecCb>::with_on_evict_cb(u(2), RecCb) {
+                Ok(c) => vec![0, c.cap() as i128],
+                Err(e) => cache_err(e),
+            },
+            14 => match caches::RawLRU::<TKey, TVal, RecCb, VHasher>::with_on_evict_cb_and_hasher(u(2), RecCb, VHasher::from_mode(3)) {
+                Ok(c) => vec![0, c.cap() as i128],
+                Err(e) => cache_err(e),
+            },
             _ => vec![-4],
         }
     }
     fn snapshot(&self) -> Ints {
         vec![]
+    }
+}
+
+fn twoq_out<RH: std::hash::BuildHasher, FH: std::hash::BuildHasher, GH: std::hash::BuildHasher>(
+    c: &caches::TwoQueueCache<TKey, TVal, RH, FH, GH>,
+) -> Ints {
+    let p = c.verif_parts();
+    vec![0, c.cap() as i128, p.3 as i128, p.2.cap() as i128]
+}
+
+/// `[141 which mode init.. (setter arg)*]`: a builder, constructed by `default()` (mode 0) or `new(init..)`
+/// (mode 1), then any sequence of its setters (hasher setters get a fresh default hasher: the builder keeps
+/// its type), then `finalize()` (or `from_builder`, alternating on the script length)
+fn builder_script(op: &[i128]) -> Ints {
+    use caches::DefaultHashBuilder as DH;
+    let which = op[1];
+    let mode = op[2];
+    let nargs = if mode == 0 { 0 } else { match which { 1 => 1, 2 => 2, 3 => 1, 4 => 4, _ => 0 } };
+    if op.len() < 3 + nargs || (op.len() - 3 - nargs) % 2 != 0 {
+        return vec![-4];
+    }
+    let init = &op[3..3 + nargs];
+    let script: Vec<(i128, i128)> = op[3 + nargs..].chunks(2).map(|c| (c[0], c[1])).collect();
+    let via_from = script.len() % 2 == 1;
+    let us = |x: i128| x as usize;
+    let fl = |x: i128| f64::from_bits(x as u64);
+    match which {
+        1 => {
+            let mut b = if mode == 0 { caches::TwoQueueCacheBuilder::default() } else { caches::TwoQueueCacheBuilder::new(us(init[0])) };
+            for (s, a) in script {
+                b = match s {
+                    1 => b.set_size(us(a)),
+                    2 => b.set_recent_ratio(fl(a)),
+                    3 => b.set_ghost_ratio(fl(a)),
+                    4 => b.set_recent_hasher(DH::default()),
+                    5 => b.set_frequent_hasher(DH::default()),
+                    6 => b.set_ghost_hasher(DH::default()),
+                    _ => return vec![-4],
+                };
+            }
+            let r = if via_from { caches::TwoQueueCache::<TKey, TVal>::from_builder(b) } else { b.finalize::<TKey, TVal>() };
+            match r {
+                Ok(c) => twoq_out(&c),
+                Err(e) => cache_err(e),
+            }
+        }
+        2 => {
+            let mut b = if mode == 0 { caches::SegmentedCacheBuilder::default() } else { caches::SegmentedCacheBuilder::new(us(init[0]), us(init[1])) };
+            for (s, a) in script {
+                b = match s {
+                    1 => b.set_probationary_size(us(a)),
+                    2 => b.set_protected_size(us(a)),
+                    3 => b.set_probationary_hasher(DH::default()),
+                    4 => b.set_protected_hasher(DH::default()),
+                    _ => return vec![-4],
+                };
+            }
+            let r = if via_from { caches::SegmentedCache::<TKey, TVal>::from_builder(b) } else { b.finalize::<TKey, TVal>() };
+            match r {
+                Ok(c) => vec![0, c.probationary_cap() as i128, c.protected_cap() as i128],
+                Err(e) => cache_err(e),
+            }
+        }
+        3 => {
+            let mut b = if mode == 0 { caches::AdaptiveCacheBuilder::default() } else { caches::AdaptiveCacheBuilder::new(us(init[0])) };
+            for (s, a) in script {
+                b = match s {
+                    1 => b.set_size(us(a)),
+                    2 => b.set_recent_hasher(DH::default()),
+                    3 => b.set_frequent_hasher(DH::default()),
+                    4 => b.set_recent_evict_hasher(DH::default()),
+                    5 => b.set_frequent_evict_hasher(DH::default()),
+                    _ => return vec![-4],
+                };
+            }
+            let r = if via_from { caches::AdaptiveCache::<TKey, TVal>::from_builder(b) } else { b.finalize::<TKey, TVal>() };
+            match r {
+                Ok(c) => vec![0, c.cap() as i128],
+                Err(e) => cache_err(e),
+            }
+        }
+        4 => {
+            let mut fp = 0.01f64;
+            let mut b: caches::WTinyLFUCacheBuilder<u64> = if mode == 0 {
+                caches::WTinyLFUCacheBuilder::default()
+            } else {
+                caches::WTinyLFUCacheBuilder::new(us(init[0]), us(init[1]), us(init[2]), us(init[3]))
+            };
+            for (s, a) in script {
+                b = match s {
+                    1 => b.set_samples(us(a)),
+                    2 => b.set_window_cache_size(us(a)),
+                    3 => b.set_protected_cache_size(us(a)),
+                    4 => b.set_probationary_cache_size(us(a)),
+                    5 => {
+                        fp = fl(a);
+                        b.set_false_positive_ratio(fl(a))
+                    }
+                    6 => b.set_window_hasher(DH::default()),
+                    7 => b.set_protected_hasher(DH::default()),
+                    8 => b.set_probationary_hasher(DH::default()),
+                    9 => b.set_key_hasher(caches::lfu::DefaultKeyHasher::<u64>::default()),
+                    _ => return vec![-4],
+                };
+            }
+            let r = if via_from { caches::WTinyLFUCache::<u64, u64>::from_builder(b) } else { b.finalize::<u64>() };
+            match r {
+                Ok(c) => std::iter::once(0).chain(wt_sizes(&c)).collect(),
+                Err(e) => lfu_err(&e, fp),
+            }
+        }
+        _ => vec![-4],
     }
 }
 
@@ -125,6 +264,46 @@ pub fn grid() -> Vec<Ints> {
             }
         }
     }
+    for &s in &SIZES {
+        v.push(vec![140, 9, s as i128]);
+        v.push(vec![140, 12, s as i128]);
+        v.push(vec![140, 13, s as i128]);
+        v.push(vec![140, 14, s as i128]);
+        for &r in &RATIOS {
+            v.push(vec![140, 10, s as i128, r.to_bits() as i128]);
+            v.push(vec![140, 11, s as i128, r.to_bits() as i128]);
+        }
+    }
+    // every builder: default() / new(..) alone, and each setter once after new(..)
+    // (TinyLFUBuilder is not nameable outside the crate: TinyLFU::new is its only public use)
+    for which in 1..=4i128 {
+        let init: Vec<i128> = match which { 1 => vec![4], 2 => vec![2, 3], 3 => vec![4], _ => vec![1, 2, 3, 8] };
+        let nset = match which { 1 => 6, 2 => 4, 3 => 5, _ => 9 };
+        v.push(vec![141, which, 0]);
+        let mut base = vec![141, which, 1];
+        base.extend(init.iter());
+        v.push(base.clone());
+        for s in 1..=nset {
+            for &a in &[0i128, 1, 5] {
+                let mut o = base.clone();
+                o.push(s);
+                o.push(a);
+                v.push(o.clone());
+                // ... and the same from default()
+                v.push(vec![141, which, 0, s, a]);
+            }
+            // ratios only where a ratio is expected (a size of 2^62 does not fit in memory: outside C05)
+            if !matches!((which, s), (1, 2) | (1, 3) | (4, 5)) {
+                continue;
+            }
+            for &r in &[0.5f64, 0.0, 1.0, f64::NAN, -0.25, 2.0] {
+                let mut o = base.clone();
+                o.push(s);
+                o.push(r.to_bits() as i128);
+                v.push(o);
+            }
+        }
+    }
     for &w in &[0u64, 1, 3] {
         for &p in &[0u64, 1, 3] {
             for &q in &[0u64, 1, 3] {
@@ -156,7 +335,54 @@ pub fn random_op(r: &mut crate::prng::Rng) -> Ints {
             _ => ((r.below(1_000_001) as f64) / 1_000_000.0).to_bits() as i128,
         }
     };
-    match r.below(5) {
+    if r.chance(2, 5) {
+        // a builder script: the setters in any order and multiplicity
+        let which = 1 + r.below(4) as i128;
+        let nset = match which { 1 => 6, 2 => 4, 3 => 5, _ => 9 };
+        let small = |r: &mut crate::prng::Rng| -> i128 { if r.chance(1, 5) { 0 } else { r.below(40) as i128 } };
+        let mut o = vec![141, which, r.below(2) as i128];
+        if o[2] == 1 {
+            let n = match which { 1 => 1, 2 => 2, 3 => 1, _ => 4 };
+            for _ in 0..n {
+                o.push(small(r));
+            }
+        }
+        // three scripts in four are mostly valid: every field set to a valid value at least once (in a random
+        // order), then a few more setters; the rest is unconstrained
+        let valid = r.chance(3, 4);
+        let is_ratio = |which: i128, s: i128| matches!((which, s), (1, 2) | (1, 3) | (4, 5));
+        let good = |r: &mut crate::prng::Rng, which: i128, s: i128| -> i128 {
+            if is_ratio(which, s) {
+                let x = if which == 4 { (1 + r.below(999_998)) as f64 / 1_000_000.0 } else { r.below(1_000_001) as f64 / 1_000_000.0 };
+                x.to_bits() as i128
+            } else {
+                1 + r.below(40) as i128
+            }
+        };
+        if valid {
+            let mut order: Vec<i128> = (1..=nset as i128).collect();
+            for i in (1..order.len()).rev() {
+                let j = r.below(i as u64 + 1) as usize;
+                order.swap(i, j);
+            }
+            for s in order {
+                o.push(s);
+                let v = good(r, which, s);
+                o.push(v);
+            }
+        }
+        for _ in 0..r.below(6) {
+            let s = 1 + r.below(nset) as i128;
+            o.push(s);
+            let v = if valid && !r.chance(1, 8) { good(r, which, s) } else if is_ratio(which, s) { ratio(r) } else { small(r) };
+            o.push(v);
+        }
+        return o;
+    }
+    match r.below(8) {
+        5 => vec![140, 9, size],
+        6 => vec![140, 10 + r.below(2) as i128, size, ratio(r)],
+        7 => vec![140, 12 + r.below(3) as i128, size],
         0 => vec![140, 3, size, ratio(r), ratio(r)],
         1 => vec![140, 4, size, ratio(r), ratio(r)],
         2 => vec![140, 7, size, r.below(3) as i128],
